@@ -659,6 +659,51 @@ def generic : List (Visitor × GenericHow) := [
 
 def tables : Tables := ⟨grammar, kindCat, visits, reads, generic⟩
 
+inductive Stage where | builder | checker | compiler | parsing | other deriving DecidableEq, Repr
+inductive ListRead where | whole | index | test deriving DecidableEq, Repr
+
+/-- how each stage (by source file) consumes the list-typed grammar fields it looks at outside rejections:
+    `whole` (iterated / unpacked / handed on), `index` (one element by constant subscript), `test` (truth value / length) -/
+def listReads : List (Stage × Kind × Field × ListRead) := [
+  (.builder, .Assign, .f_targets, .whole),
+  (.builder, .BoolOp, .f_values, .index),
+  (.builder, .BoolOp, .f_values, .test),
+  (.builder, .BoolOp, .f_values, .whole),
+  (.builder, .Call, .f_args, .index),
+  (.builder, .Call, .f_args, .whole),
+  (.builder, .Compare, .f_comparators, .test),
+  (.builder, .Compare, .f_comparators, .whole),
+  (.builder, .Compare, .f_ops, .test),
+  (.builder, .Compare, .f_ops, .whole),
+  (.builder, .For, .f_body, .whole),
+  (.builder, .FunctionDef, .f_body, .whole),
+  (.builder, .GeneratorExp, .f_generators, .whole),
+  (.builder, .If, .f_body, .whole),
+  (.builder, .If, .f_orelse, .whole),
+  (.builder, .ListComp, .f_generators, .whole),
+  (.builder, .While, .f_body, .whole),
+  (.builder, .With, .f_body, .whole),
+  (.builder, .With, .f_items, .whole),
+  (.checker, .Assign, .f_targets, .whole),
+  (.checker, .Call, .f_args, .whole),
+  (.checker, .Compare, .f_comparators, .whole),
+  (.checker, .Compare, .f_ops, .whole),
+  (.checker, .FunctionDef, .f_body, .whole),
+  (.checker, .FunctionDef, .f_type_params, .whole),
+  (.checker, .List, .f_elts, .index),
+  (.checker, .List, .f_elts, .test),
+  (.checker, .List, .f_elts, .whole),
+  (.checker, .Tuple, .f_elts, .test),
+  (.checker, .Tuple, .f_elts, .whole),
+  (.checker, .arguments, .f_args, .whole),
+  (.checker, .comprehension, .f_ifs, .test),
+  (.checker, .comprehension, .f_ifs, .whole),
+  (.compiler, .Tuple, .f_elts, .whole),
+  (.compiler, .comprehension, .f_ifs, .whole),
+  (.parsing, .List, .f_elts, .whole),
+  (.parsing, .Tuple, .f_elts, .whole)
+]
+
 inductive SkipAtom where | tmpVar | isinstance | other | unanalysable deriving DecidableEq, Repr
 inductive RecordHow where | always | never | guarded (skipWhen : List SkipAtom) deriving DecidableEq, Repr
 
